@@ -79,9 +79,10 @@ def build(S, tier):
         "composite: 3 sub-moves over one shared label array; the count clause 'min(n, eligible)' is only exercised by the bounded native stand-in"],
         "undecided_clauses": ["composite displaces exactly min(n, eligible) particles when nothing vetoes (cardinality of label sets): bounded native check only"]}
 
-    def setup(I, preselect, n_moves=1, check="symbolic"):
+    def setup(I, preselect, n_moves=1, check="symbolic", unroll=None):
         install_numpy(I)
-        I.loop_contracts[(DM + ".attempt_displacement", 0)] = attempt_loop_contract
+        if unroll is None:
+            I.loop_contracts[(DM + ".attempt_displacement", 0)] = attempt_loop_contract
         n = I.path.fresh("n", "int")
         I.path.assume(n.t >= 0)
         atoms = AtomsHeap(I, n=n, tag="A")
@@ -99,6 +100,8 @@ def build(S, tier):
                 checks.append(b)
                 return b
             mv.attrs["check_move"] = Builtin("check_move", chk)
+            if unroll is not None:
+                mv.attrs["max_attempts"] = unroll
             mv._op, mv._checks = op, checks
             moves.append(mv)
         if preselect:
@@ -108,16 +111,18 @@ def build(S, tier):
         return dict(atoms=atoms, labels=labels, rng=rng, ctx=ctx, moves=moves, P0=P0, n=n)
 
     # ------------------------------------------------------------------ single move
-    for preselect in (False, True):
-        def run(I, preselect=preselect):
-            st = setup(I, preselect)
+    # (each also with the attempt loop EXECUTED for max_attempts = 2 instead of abstracted by its invariant: bounded in the number of
+    # attempts, independent of how the loop restores a vetoed attempt)
+    for preselect, unroll in ((False, None), (True, None), (False, 2), (True, 2)):
+        def run(I, preselect=preselect, unroll=unroll):
+            st = setup(I, preselect, unroll=unroll)
             mv = st["moves"][0]
             pre = mv.attrs["to_displace_labels"]
             ndraws0 = len(st["rng"].draws)
             r = I.call(mv, [st["ctx"]], {})
             return dict(st, r=r, mv=mv, pre=pre, ndraws0=ndraws0)
 
-        tag = "pre-selected target" if preselect else "random target"
+        tag = ("pre-selected target" if preselect else "random target") + (f", attempt loop unrolled, max_attempts={unroll}" if unroll else "")
         label = f"{DM}.__call__[{tag}]"
         paths = S.explore(run, label, max_paths=200)
         for fn in ("__call__", "attempt_displacement", "set_labels", "register_success", "register_failure", "__init__"):
@@ -177,7 +182,7 @@ def build(S, tier):
                             z3.Implies(zint(lab) >= 0, z3.BoolVal(False)), hyps=hy() + [us.empty_means(I, pg)])
             S.adopt(p, prefix=f"[{tag}]post:")
         if "unsupported" not in kinds:
-            S.prove(f"{label}#cover.success_failure_and_loop_paths", {"success", "failure", "cut"} <= kinds, kind="cover", why=str(kinds))
+            S.prove(f"{label}#cover.success_failure_and_loop_paths", ({"success", "failure", "cut"} if unroll is None else {"success", "failure"}) <= kinds, kind="cover", why=str(kinds))
 
     # ------------------------------------------------------------------ composite of 3 moves
     def run_comp(I):
